@@ -133,6 +133,11 @@ def dictAppend {κ ν : Type} [BEq κ] : List (κ × List ν) → κ → ν → 
   | [], k, v => [(k, [v])]
   | (k', vs) :: rest, k, v => if k' == k then (k', vs ++ [v]) :: rest else (k', vs) :: dictAppend rest k v
 
+/-- `xs[i] = v` for an in-range (possibly negative) index; out of range leaves the list alone (the translation guards it with `IndexError`) -/
+def listSet {α : Type} (xs : List α) (i : Int) (v : α) : List α :=
+  let j := if i < 0 then i + xs.length else i
+  if j < 0 then xs else xs.set j.toNat v
+
 /-- `d[k]` / `d.get(k)` -/
 def dictGet? {κ ν : Type} [BEq κ] : List (κ × ν) → κ → Option ν
   | [], _ => none
